@@ -11,6 +11,7 @@ package main
 
 import (
 	"fmt"
+	"strings"
 	"go/types"
 	"sort"
 
@@ -21,6 +22,67 @@ type ghostFile struct {
 	records []Value // *StructV copies of the encoded values' pointees (with their dynamic type)
 	rtypes  []types.Type
 	mtime   uint64
+	size    int // sum of the records' weights: grows and shrinks with the strings and collections encoded
+}
+
+// weight is the model's stand-in for the length of a value's JSON text: 8 per
+// record plus the lengths of all strings and the element counts of all
+// slices and maps reachable from it.  Two versions of a file have the same
+// size when their contents differ only in strings of equal length (a bcrypt
+// hash replaced by another, "old" by "new"), which is how same-size rewrites
+// arise in practice; versions are then told apart by the modification time only.
+func (e *Exec) weight(st *State, v Value, depth int) int {
+	if depth > 8 {
+		return 0
+	}
+	switch x := v.(type) {
+	case StrV:
+		return len(x.b)
+	case *StructV:
+		n := 0
+		for _, f := range x.f {
+			n += e.weight(st, f, depth+1)
+		}
+		return n
+	case *ArrayV:
+		n := 0
+		for _, f := range x.e {
+			n += e.weight(st, f, depth+1)
+		}
+		return n
+	case IfaceV:
+		if x.t == nil {
+			return 0
+		}
+		return e.weight(st, x.v, depth+1)
+	case Ptr:
+		if x.IsNil() {
+			return 0
+		}
+		if root, ok := st.heap[x.obj]; ok {
+			return 1 + e.weight(st, e.loadPath(st, root, x.path), depth+1)
+		}
+	case SliceV:
+		if x.base.obj == 0 || !x.len.IsConst() {
+			return 0
+		}
+		n := int(x.len.val)
+		w := n
+		for i := 0; i < n; i++ {
+			w += e.weight(st, e.load(st, e.sliceElemPtr(x, e.c.Const(64, uint64(i)))), depth+1)
+		}
+		return w
+	case MapV:
+		if x.obj == 0 {
+			return 0
+		}
+		w := 0
+		for _, en := range e.mapObj(st, x).entries {
+			w += 1 + e.weight(st, en.k, depth+1) + e.weight(st, en.v, depth+1)
+		}
+		return w
+	}
+	return 0
 }
 
 type ghostFS struct {
@@ -82,7 +144,7 @@ func (e *Exec) ghostStatValue(st *State, name string, f *ghostFile) Value {
 	z := e.zero(ft).(*StructV)
 	fl := append([]Value(nil), z.f...)
 	fl[0] = e.strConst(name)
-	fl[1] = e.c.Const(64, uint64(64*len(f.records)))
+	fl[1] = e.c.Const(64, uint64(f.size))
 	// modTime: a time.Time without monotonic reading: 2026-01-01 + mtime ns
 	fl[3] = &StructV{[]Value{e.c.Const(64, f.mtime%1000000000), e.c.Const(64, 62135596800+1767225600+f.mtime/1000000000), Ptr{}}}
 	obj := e.alloc(st, &StructV{fl})
@@ -203,9 +265,20 @@ func init() {
 	})
 	add("os.MkdirAll", func(e *Exec, st *State, fv FuncV, a []Value, cc *ssa.CallCommon) Value { return nilErr() })
 	add("os.MkdirTemp", func(e *Exec, st *State, fv FuncV, a []Value, cc *ssa.CallCommon) Value {
-		return TupleV{[]Value{e.strConst("/ghost"), nilErr()}}
+		g := st.fs()
+		g.temps++
+		return TupleV{[]Value{e.strConst(fmt.Sprintf("/ghost%d", g.temps)), nilErr()}}
 	})
-	add("os.RemoveAll", func(e *Exec, st *State, fv FuncV, a []Value, cc *ssa.CallCommon) Value { return nilErr() })
+	add("os.RemoveAll", func(e *Exec, st *State, fv FuncV, a []Value, cc *ssa.CallCommon) Value {
+		g := st.fs()
+		dir := e.cstr(a[0])
+		for k := range g.files {
+			if k == dir || strings.HasPrefix(k, dir+"/") {
+				delete(g.files, k)
+			}
+		}
+		return nilErr()
+	})
 	add("os.Remove", func(e *Exec, st *State, fv FuncV, a []Value, cc *ssa.CallCommon) Value {
 		ghostNote(e)
 		if e.mutation(st) {
@@ -237,6 +310,7 @@ func init() {
 	add("(*os.File).Name", func(e *Exec, st *State, fv FuncV, a []Value, cc *ssa.CallCommon) Value {
 		return e.strConst(e.ghostHandleOf(st, a[0]).name)
 	})
+	add("(*os.File).Sync", func(e *Exec, st *State, fv FuncV, a []Value, cc *ssa.CallCommon) Value { return nilErr() })
 	add("(*os.File).Close", func(e *Exec, st *State, fv FuncV, a []Value, cc *ssa.CallCommon) Value { return nilErr() })
 	add("(*os.File).Stat", func(e *Exec, st *State, fv FuncV, a []Value, cc *ssa.CallCommon) Value {
 		h := e.ghostHandleOf(st, a[0])
@@ -263,8 +337,10 @@ func init() {
 		if !ok || p.IsNil() {
 			panic(e.abort("ghost fs: Encode of a non-pointer value"))
 		}
-		f.records = append(f.records, e.load(st, p))
+		rec := e.load(st, p)
+		f.records = append(f.records, rec)
 		f.rtypes = append(f.rtypes, iv.t)
+		f.size += 8 + e.weight(st, rec, 0)
 		st.fs().touch(f)
 		return nilErr()
 	})
